@@ -167,7 +167,7 @@ pub fn search(r: &mut Report, tier: &str, seed: u64) {
 }
 
 pub fn standin_merkle_reads(r: &mut Report) {
-    r.target = "MerkleReg::children / parents / all_nodes and Content::values / nodes / hashes_and_nodes (iterator chains outside the contract): agree with the visible DAG".into();
+    r.target = "MerkleReg::children / parents / all_nodes and Content::values / nodes / hashes_and_nodes (verified against the adapter shims; this exercises the shims on the real crate): agree with the visible DAG".into();
     r.bound = "all DAG shapes over <= 4 nodes, arrival in index order and reversed, every prefix".into();
     for n in 1..=4usize {
         let bits = n * (n - 1) / 2;
